@@ -116,7 +116,8 @@ def debug_assert_blocks(body):
                             false_t = x
                     true_t = t["otherwise"] if false_t is not None else None
                     if true_t is not None:
-                        out |= flow.reach_avoiding(body, [true_t], [false_t])
+                        # everything the true edge reaches before re-joining the path that skipped the assertion
+                        out |= flow.reach_avoiding(body, [true_t], [false_t]) - flow.reach_avoiding(body, [false_t], [])
     return out
 
 
